@@ -6,6 +6,7 @@ CONSTRAINT FaultBound
 INVARIANT TypeOK
 INVARIANT FinalComplete
 INVARIANT PropsPublishedComplete
+INVARIANT DataImpliesProps
 INVARIANT ReaderNeverFails
 INVARIANT ReaderSeesProps
 INVARIANT CrashSafe
